@@ -1,5 +1,5 @@
 """C14 — No input can crash the updater; storage failures are harmless."""
-import json, os, subprocess
+import json, os, re, subprocess
 from ..core import BV, strip, walk, fmt_t, is_logging_span
 from .. import lib, guards, sm as smod, terms, census, intervals, facts
 from ..sm import reach, path, reach_in, reach_pf
@@ -232,6 +232,13 @@ def run(F, R):
                         ch = smod._chain(pl)
                         if "context" in ch:
                             bad.append(("write", ".".join(ch), ny.loc()))
+                        elif ch and pl.get("p") and pl["p"][0]["k"] == "deref":
+                            # a write through a reference parameter (e.g. `self.state.x = ..` inside a Context method)
+                            root = ny.ctx.bv.trace_local(pl["l"])
+                            while root[0] in ("ref", "deref", "field"):
+                                root = root[1]
+                            if root[0] == "param":
+                                bad.append(("write", "(*param%d).%s" % (root[1], ".".join(ch)), ny.loc()))
                 R.check("C14-R2", "control-dependence:%s#%d" % (nd.ctx.bv.name.split("::")[-2], i_), not bad, "only storage operations depend on this storage result",
                         "non-storage effects are control-dependent on a storage result: %s" % bad[:4], nd.loc())
             # the function's return value must not depend on it either (same provenance on all paths)
@@ -256,6 +263,62 @@ def run(F, R):
                 R.check("C14-R2", "read-back:%s:%s" % (tag, kv), kv in READ_BACK_OK, "reads %r (feeds metrics / bookkeeping only)" % kv,
                         "a check/ping reads back storage key %r in %s: after a failed write of that key the run no longer behaves like one with working storage" % (kv, kname), n.loc())
     R.floor("C14-R2", "storage reads inside a check", n_reads, 2)
+
+    # ---------------------------------------------------------------- R6 calendar formatting of times only inside logging
+    R.rule("C14-R6", "the calendar rendering of wall times (chrono's DateTime::from(SystemTime), which panics outside about +/-262000 years) is reachable only through Display/Debug impls that are used inside logging statements; no error value, event or other eagerly built string formats a time that way")
+    fmt_bodies = {}
+    for b_ in c.bodies:
+        if b_.get("item") == "fmt" and b_.get("impl_trait") in ("std::fmt::Display", "std::fmt::Debug") and b_.get("impl_self"):
+            fmt_bodies[(b_["impl_trait"].split("::")[-1], lib.norm(b_["impl_self"]))] = b_
+
+    def _fmt_targets(bv_):
+        """(trait, type) pairs a body formats: Argument::new_display/new_debug::<T> and direct Display/Debug::fmt calls"""
+        out_ = []
+        for bi_, t_ in bv_.calls(reachable_only=False):
+            cal_ = lib.norm(t_.get("callee") or "")
+            if cal_.endswith("new_display") or cal_.endswith("new_debug"):
+                for s_ in t_.get("substs", []):
+                    if isinstance(s_, int):
+                        ty_ = lib.norm(c.types[s_]["s"]).lstrip("&").replace("mut ", "")
+                        out_.append(("Display" if cal_.endswith("new_display") else "Debug", ty_, bi_, t_))
+            elif cal_ in ("std::fmt::Display::fmt", "std::fmt::Debug::fmt"):
+                rb_ = W.by_id.get(t_.get("resolved_id") or "")
+                if rb_ is not None and rb_.get("impl_self") and (rb_.get("impl_trait") or "").startswith("std::fmt::"):
+                    out_.append((rb_["impl_trait"].split("::")[-1], lib.norm(rb_["impl_self"]), bi_, t_))
+                else:
+                    rs_ = lib.norm(t_.get("resolved") or "")
+                    m_ = re.match(r"<(.*) as std::fmt::(Display|Debug)>::fmt", rs_) or re.search(r"impl std::fmt::(Display|Debug) for ([^>]+)>::fmt", rs_)
+                    if m_:
+                        g_ = m_.groups()
+                        out_.append((g_[1], g_[0].lstrip("&"), bi_, t_) if g_[0] not in ("Display", "Debug") else (g_[0], g_[1].lstrip("&"), bi_, t_))
+        return out_
+    danger = set()
+    for k_, b_ in fmt_bodies.items():
+        if any("chrono::DateTime" in lib.norm(t_.get("resolved") or "") and lib.norm(t_.get("callee") or "").endswith("From::from") for _, t_ in BV.of(b_).calls(reachable_only=False)):
+            danger.add(k_)
+    for _ in range(8):
+        grew = False
+        for k_, b_ in fmt_bodies.items():
+            if k_ in danger:
+                continue
+            if any((tr_, ty_) in danger for (tr_, ty_, _, _) in _fmt_targets(BV.of(b_))):
+                danger.add(k_)
+                grew = True
+        if not grew:
+            break
+    if R.floor("C14-R6", "formatting impls that reach the calendar conversion", len(danger), 2):
+        n_sites = 0
+        for bid in sorted(reachable):
+            bv_ = W.bv(bid)
+            if bv_ is None or (bv_.body.get("item") == "fmt" and (bv_.body.get("impl_trait") or "").startswith("std::fmt::")):
+                continue   # the impls themselves: counted through their users
+            for (tr_, ty_, bi_, t_) in _fmt_targets(bv_):
+                if (tr_, ty_) not in danger:
+                    continue
+                n_sites += 1
+                R.check("C14-R6", "calendar-format-only-in-logging:%s#%d" % (bv_.name.split("::")[-2] if "::" in bv_.name else bv_.name, n_sites), is_logging_span(t_["sp"]),
+                        "%s of %s inside a logging statement" % (tr_, ty_), "%s of %s (calendar rendering, can panic for far-off wall times) is formatted outside a logging statement" % (tr_, ty_), lib.loc(bv_, bi_))
+        R.count("calendar_format_sites", n_sites)
 
     # ---------------------------------------------------------------- R3 unsafe census
     R.rule("C14-R3", "the only hand-written unsafe blocks in reachable code are the two from_utf8_unchecked calls justified by C01-R6")
